@@ -62,6 +62,21 @@ type recStore struct {
 	*store.Store[H]
 	mu    sync.Mutex
 	calls []storeCall
+	// OnHead, if set, runs once right after the first Head() call was answered by the real store (before the
+	// caller sees the answer): something happens to the store between two of the server's calls
+	OnHead func()
+}
+
+func (r *recStore) Head(ctx context.Context, opts ...header.HeadOption[H]) (H, error) {
+	h, err := r.Store.Head(ctx, opts...)
+	r.mu.Lock()
+	f := r.OnHead
+	r.OnHead = nil
+	r.mu.Unlock()
+	if f != nil {
+		f()
+	}
+	return h, err
 }
 
 func (r *recStore) rec(c storeCall) { r.mu.Lock(); r.calls = append(r.calls, c); r.mu.Unlock() }
@@ -107,6 +122,15 @@ type storeEnv struct {
 	chain *vh.Chain
 	tail  uint64
 	head  uint64
+	head0 uint64 // >0: the head when the request arrived (the store has grown since)
+}
+
+// headAtRequest is the head a reply may legitimately be cut at.
+func (e *storeEnv) headAtRequest() uint64 {
+	if e.head0 > 0 {
+		return e.head0
+	}
+	return e.head
 }
 
 func newStoreEnv(c *mon.Case, chain *vh.Chain, tail, head uint64) *storeEnv {
